@@ -491,6 +491,9 @@ def harnesses(tier):
         hs.append(Harness(f"bsta1d.{nl}.{nr}", h_bsta1d, {"nl": nl, "nr": nr, "lam_value": 1, "prefix": "C02"}, max_paths=4000))
     hs.append(Harness("bsta1d.2.2.after_another_chain", h_bsta1d, {"nl": 2, "nr": 2, "lam_value": 1, "history": True, "prefix": "C02"}, max_paths=4000))
     hs.append(Harness("bsta1d.2.2.grid_with_its_own_cell_boundaries", h_bsta1d, {"nl": 2, "nr": 2, "lam_value": 1, "own_cells": True, "prefix": "C02"}, max_paths=4000))
+    if not q:
+        hs.append(Harness("bsta1d.3.2.grid_with_its_own_cell_boundaries", h_bsta1d, {"nl": 3, "nr": 2, "lam_value": 1, "own_cells": True, "prefix": "C02"}, max_paths=4000))
+        hs.append(Harness("bsta1d.2.3.grid_with_its_own_cell_boundaries.fa", h_bsta1d, {"nl": 2, "nr": 3, "lam_value": 1, "own_cells": True, "fa": True, "prefix": "C02"}, max_paths=4000))
     hs.append(Harness("bsta.2d.1", h_bsta_nd, {"d": 2, "npts": 1, "prefix": "C02"}, max_paths=4000, batch=1))
     hs.append(Harness("bsta.2d.2", h_bsta_nd, {"d": 2, "npts": 2, "prefix": "C02"}, max_paths=4000, batch=1))
     if not q:
